@@ -109,6 +109,7 @@ type Interp struct {
 	endStatus *pathEnd
 	timeNondet bool
 	randNondet bool
+	chanOnly   bool
 	initSteps int64
 }
 
